@@ -21,6 +21,34 @@ for c in man["checks"]:
                 f"{cov.get('evaluations', '?')} / {cov.get('distinct_nontrivial', '?')} | {fixed} / {known} |")
 na = man.get("not_applicable", [])
 txt = "\n".join(rows) + "\n\n" + (f"not_applicable: {', '.join(x['property_id'] for x in na)}" if na else "not_applicable: none — all 40 properties are claimed.") + "\n"
+# ---- seeded-change table (§10.5) from seeded/*/meta.json
+import glob
+srows = ["| id | seeded change (tester's summary, abridged) | verdict | how (abridged; full text in seeded/<id>/meta.json) |", "|---|---|---|---|"]
+n = caught_first = caught_after = missed = 0
+def ab(t, k):
+    t = " ".join(str(t).split()).replace("|", "/")
+    return t if len(t) <= k else t[:k - 1] + "…"
+for f in sorted(glob.glob("seeded/C*/meta.json")):
+    m = json.load(open(f))
+    sid = f.split("/")[1]
+    how = m.get("how_caught", "")
+    c = m.get("caught")
+    first_missed = "MISSED" in how.upper()[:40] or how.lower().startswith("first")
+    if c and not first_missed:
+        verdict = "caught"; caught_first += 1
+    elif c:
+        verdict = "caught after strengthening"; caught_after += 1
+    else:
+        verdict = "**missed** (strengthening in progress)"; missed += 1
+    n += 1
+    srows.append(f"| {sid} | {ab(m.get('summary', ''), 230)} | {verdict} | {ab(how, 330)} |")
+stxt = "\n".join(srows) + f"\n\nScore: {n} seeded changes confirmed by the lead; {caught_first} caught by the checks as they stood, {caught_after} caught after the check was strengthened (the first run either missed them or reported only a broken correspondence without a failing input), {missed} still missed.\n"
+s = open("DESIGN.md").read()
+sb, se = "<!-- SEEDED-BEGIN -->", "<!-- SEEDED-END -->"
+if sb in s:
+    s = s[:s.index(sb) + len(sb)] + "\n" + stxt + s[s.index(se):]
+    open("DESIGN.md", "w").write(s)
+    print("seeded table rewritten:", n, "rows")
 s = open("DESIGN.md").read()
 b, e = "<!-- STATUS-BEGIN -->", "<!-- STATUS-END -->"
 if b in s:
